@@ -17,6 +17,11 @@ THEOREMS = [
     "C03_legacy_valid", "C03_sro_valid", "C03_sro_eq_c3_rooted", "C03_root_last",
     "C03_single_base_shortcut_sound", "C03_iro_is_filter", "C03_oracle_sound",
     "C03_strict_sro_raises_iff", "C03_legacy_sro_valid",
+    "C03_generated_can_choose_base_eq_model", "C03_generated_nonempty_bases_ignoring_eq_model",
+    "C03_generated_find_next_C3_base_eq_model", "C03_generated_legacy_mergeOrderings_eq_model",
+    "C03_generated_merge_eq_model", "C03_generated_c3_node_eq_model",
+    "C03_generated_had_inconsistency_eq_model", "C03_generated_ro_eq_model",
+    "C03_generated_is_consistent_eq_model", "C03_generated_root_fixup_eq_model",
 ]
 RULE = ("ordered inheritance DAGs of real InterfaceClass objects and class specifications "
         "(implementer on real classes); streams: pure interface DAGs, DAGs with Interface as an explicit "
@@ -24,11 +29,46 @@ RULE = ("ordered inheritance DAGs of real InterfaceClass objects and class speci
         "is non-trivial when some specification has >= 2 bases; distinct = distinct (stream, node count, "
         "sorted base-count profile, inconsistent?, root fix-up needed?, phases) signature")
 TRUSTED_BASE = ["the numbering of specifications by the driver (creation order, closure under __bases__)",
-                "CPython's type.mro() as independent oracle for the textbook C3 of Spec/C3.v"]
+                "CPython's type.mro() as independent oracle for the textbook C3 of Spec/C3.v",
+                "harness/translate/ro_kernel.py: the fail-closed translation of ro.py / _calculate_sro into "
+                "coq/Gen/RoKernel.v (vocabulary coq/Lib/Py.v: `is` = equality of object numbers, sets as lists, "
+                "`while 1` as a fuel-indexed Fixpoint); pinned, not translated: _legacy_flatten, C3.resolver, "
+                "C3.legacy_ro, C3.mro, _StaticMRO, _TrackingC3, the resolver-building loop of C3.__init__"]
 ASSUMPTIONS = ["base graphs are acyclic and base lists do not repeat an entry (wfb, re-checked in Coq on every case)",
                "interface (name, module) keys are unique within a case (see C02/F10 for what happens otherwise)",
                "rebasing history: after any sequence of __bases__ reassignments every __sro__ equals the order of a "
                "freshly built hierarchy (checked by the rebase stream; the propagation proof belongs to C02)"]
+
+
+# --------------------------------------------------------------------------- regeneration
+
+GEN_FILE = os.path.join(C.COQ, "Gen", "RoKernel.v")
+
+
+def regenerate(run):
+    """Re-translate ro.py and Specification._calculate_sro of the working tree into coq/Gen/RoKernel.v
+    (fail closed).  After a refusal the kernel of the pinned source is written instead, so that the rest
+    of the development still builds; the refusal itself is returned as the error (the theorems of
+    Properties/C03.v are then not about the current source)."""
+    from ..translate import ro_kernel as T
+    errs = []
+    try:
+        text = T.translate(C.REPO)
+    except (T.TranslationError, SyntaxError, OSError) as e:
+        text = T.pinned()
+        errs.append("harness/translate/ro_kernel.py refused the current ro.py / interface.py (%s: %s); "
+                    "coq/Gen/RoKernel.v holds the pinned kernel, so the C03_generated_*_eq_model theorems are NOT "
+                    "about the current source" % (type(e).__name__, e))
+    with C.CoqLock():
+        C.write_if_changed(GEN_FILE, text)
+    run.coverage["translated_kernel"] = {"source": ["src/zope/interface/ro.py", "src/zope/interface/interface.py"],
+                                         "generated": "coq/Gen/RoKernel.v", "ok": not errs}
+    # the ties (model + Spec oracle) do not depend on the generated kernel and must exist even when the
+    # equality proofs over a changed kernel fail
+    ok, out = C.coq_make(["Tie/C03.vo", "Tie/C03mro.vo", "Tie/C03leg.vo"])
+    if not ok:
+        errs.append("the C03 ties do not build:\n" + out[-2000:])
+    return errs
 
 
 # --------------------------------------------------------------------------- generation
@@ -376,15 +416,19 @@ def extra(run, impl, known):
                  "case": lcases[j], "observed": res["obs"][j]}, "legacyenv_tie_%s_%d" % (mode, j), no_input=True)
 
 
-TECHNIQUE = ("Coq proof over a Gallina transcription of ro.py / _calculate_sro against a textbook-C3 Spec; vm_compute "
-             "correspondence with both implementations on generated hierarchies; CPython MRO as Spec oracle")
-LEVEL_TEXT = ("Machine-checked theorems (Properties/C03.v, 19 theorems, closed under the global context) state for ALL "
+TECHNIQUE = ("Coq proof over a Gallina transcription of ro.py / _calculate_sro against a textbook-C3 Spec; the transcription "
+             "is proved equal to kernels regenerated from the source text by a fail-closed ast translator on every run; "
+             "vm_compute correspondence with both implementations on generated hierarchies; CPython MRO as Spec oracle")
+LEVEL_TEXT = ("Machine-checked theorems (Properties/C03.v, 29 theorems, closed under the global context) state for ALL "
               "finite acyclic ordered hierarchies that the model's __sro__ is a valid linearization ending with Interface, "
               "equals the textbook C3 order whenever that exists, that strict mode raises / is_consistent is False exactly "
               "when it does not, that the legacy fallback is still a valid linearization, and that the merge terminates. "
+              "Ten of them (C03_generated_*_eq_model) state that the hand model equals, definition by definition, the Gallina "
+              "kernels regenerated on this run from the text of ro.py and Specification._calculate_sro. "
               "The model is compared with the C and Python builds on generated hierarchies on every run and the "
               "implementation's raw answers are judged inside Coq by the Spec (textbook C3 + ValidLin) alone.")
-LEVEL_NOTE = ("Trusted: Coq kernel/vm_compute; the hand transcription of ro.py (validated by the correspondence in both modes, "
+LEVEL_NOTE = ("Trusted: Coq kernel/vm_compute; the translator harness/translate/ro_kernel.py and its vocabulary Lib/Py.v; the "
+              "hand-modelled glue it pins instead of translating (_legacy_flatten, resolver recursion; validated by the correspondence in both modes, "
               "incl. class specs, explicit Interface bases and rebasing); the rebasing-history half is observed (rebase "
               "stream), its propagation proof belongs to C02.  Hierarchies with repeated entries in one base list or "
               "with equal (name, module) keys are outside the statement.")
